@@ -207,6 +207,23 @@ def _judge_special(rng, tag):
         out.append(_viol("chunked-train:model-with-upstream-feedback", "online training (no teacher forcing) of a model whose feedback sender is upstream "
                          "of the receiver differs when done in chunks", {"tag": tag, "kind": "train-fb-model", "cut": cut},
                          np.asarray(qa).ravel().tolist(), np.asarray(qb).ravel().tolist()))
+    # online model whose receiver gets feedback from the online readout itself (reservoir <<= readout), no teacher forcing: at the first step
+    # of every later chunk the receiver sees the readout's last output, exactly as in the middle of the whole sequence
+    def mk_loop_model(t):
+        def init(node, x=None, **kw):
+            node.set_input_dim(x.shape[1]); node.set_output_dim(x.shape[1])
+        R = Node(forward=lambda n, x: x + np.asarray(n.feedback()).reshape(1, -1)[:, :1] / 2, initializer=init, name="lr%s_%s" % (tag, t))
+        o = RLS(name="lo%s_%s" % (tag, t))
+        R <<= o
+        return R >> o, R, o
+    la, R5, o5 = mk_loop_model("a"); lb, R6, o6 = mk_loop_model("b")
+    X1 = X[:, :1]
+    wa = la.train(X1, Y, force_teachers=False)
+    wb = np.vstack([lb.train(X1[s:e], Y[s:e], force_teachers=False) for s, e in pieces])
+    if not np.allclose(wa, wb, atol=1e-7) or not np.allclose(o5.Wout, o6.Wout, atol=1e-7) or not np.allclose(R5.state(), R6.state(), atol=1e-9):
+        out.append(_viol("chunked-train:model-with-readout-feedback", "online training (no teacher forcing) of a model whose reservoir receives the online readout's "
+                         "feedback differs when done in chunks", {"tag": tag, "kind": "train-loop-model", "cut": cut},
+                         np.asarray(wa).ravel().tolist(), np.asarray(wb).ravel().tolist()))
     ra = Reservoir(3, W=W.copy(), Win=Win.copy(), bias=np.zeros((3, 1)), lr=0.5, name="mr%s_a" % tag) ; rb = Reservoir(3, W=W.copy(), Win=Win.copy(), bias=np.zeros((3, 1)), lr=0.5, name="mr%s_b" % tag)
     oa_, ob_ = RLS(name="mo%s_a" % tag), RLS(name="mo%s_b" % tag)
     ma, mb = ra >> oa_, rb >> ob_
